@@ -11,6 +11,8 @@ import Proofs.ResolverSpec
 import Proofs.ResolverEquiv
 import Proofs.ResolverNoNs
 import Proofs.ResolverNxEvidence
+import Model.ResolverAsync
+import Proofs.ResolverAsync
 /-!
 # C16 — stub resolution reaches the documented outcome under every fault sequence
 
@@ -524,6 +526,34 @@ theorem query_timeout_budget (env : Env) (now t : Nat) (h : computeTimeout env n
     intro _
     rw [Nat.min_def]; split <;> omega
 
+/-- `_compute_timeout` on a clock that may run backwards (`computeTimeoutZ`, tied to the code by the stand-alone
+`c16.timeout` stream): a step back of more than a second gives up, a smaller one counts as no time elapsed, and on a clock
+that did not run backwards it is the `computeTimeout` the resolution theorems are about. -/
+theorem compute_timeout_any_clock (env : Env) (start now : Int) :
+    (now - start < -1000 → computeTimeoutZ env.lifetime env.cfg.timeout start now = none) ∧
+    (-1000 ≤ now - start → now - start < 0 →
+        computeTimeoutZ env.lifetime env.cfg.timeout start now =
+          if env.lifetime = 0 then none else some (min env.lifetime env.cfg.timeout)) ∧
+    (∀ n : Nat, env.start ≤ n →
+        computeTimeoutZ env.lifetime env.cfg.timeout (env.start : Int) (n : Int) = computeTimeout env n) := by
+  refine ⟨?_, ?_, ?_⟩
+  · intro h
+    have h0 : now - start < 0 := by omega
+    simp [computeTimeoutZ, h0, h]
+  · intro h1 h2
+    have h3 : ¬ (now - start < -1000) := by omega
+    simp [computeTimeoutZ, h2, h3]
+  · intro n hn
+    have h0 : ¬ ((n : Int) - (env.start : Int) < 0) := by omega
+    have hd : ((n : Int) - (env.start : Int)).toNat = n - env.start := by omega
+    unfold computeTimeoutZ computeTimeout
+    simp only [h0, if_false, hd]
+    by_cases hge : n - env.start ≥ env.lifetime
+    · have : (n : Int) - (env.start : Int) ≥ (env.lifetime : Int) := by omega
+      simp [hge, this]
+    · have : ¬ ((n : Int) - (env.start : Int) ≥ (env.lifetime : Int)) := by omega
+      simp [hge, this]
+
 /-- `next_nameserver`: "retry_with_tcp, round re-arming, back-off doubling" — the pending TCP retry goes to the same
 server with no back-off; otherwise the next server of the round is taken; when the round is exhausted and servers
 remain, the round is re-armed with all remaining servers, the current back-off is slept and then multiplied (capped);
@@ -544,6 +574,52 @@ theorem next_nameserver_schedule (env : Env) (st : St) :
     exact ⟨g5, r1, r2, r3, hc⟩
   · intro h1 h2 h3
     simp [nextNameserver, h1, h2, h3]
+
+/-! ## the asyncio resolver -/
+
+/-- "The synchronous and asynchronous resolvers take identical decisions": `resolveAsync` (`Model/ResolverAsync.lean`)
+models `dns.asyncresolver.Resolver.resolve` as a coroutine — the loop body cut at its two suspension points
+(`await backend.sleep`, `await nameserver.async_query`), with its own clipping of the back-off sleep and its own
+`if backoff:` guard, resumed by an event loop — and sharing `_Resolution` with the synchronous resolver as the source
+does.  Driven by a loop whose timers fire on time (the harness's virtual-time loop), it produces for every
+configuration, request, clock, cache and script exactly the synchronous resolver's event sequence (every query with its
+server, transport and timeout, every sleep), result and final state.  (That the coroutine model is
+`asyncresolver.py` is the tie: identical traces on every generated script and the run-time comparison of the two loop
+bodies.) -/
+theorem async_eq_sync (cfg : Config) (bo : Backoff) (clip : Bool) (maxChain : Nat) (req : Request) (now : Nat)
+    (cache : Cache) (script : List ScriptStep) :
+    resolveAsync exactLoop cfg bo clip maxChain req now cache script =
+      resolve cfg bo clip maxChain req now cache script := by
+  unfold resolveAsync resolve
+  by_cases hmeta : (isMetatype req.rdtype || isMetaclass req.rdclass) = true
+  · simp only [hmeta, if_true]
+  · simp only [hmeta, Bool.false_eq_true, if_false]
+    cases getQnamesToTry cfg req.qname req.search with
+    | error e => rfl
+    | ok qnames => exact arun_eq_run _ _ _
+
+/-- hence the asyncio resolver, too, computes the independent specification -/
+theorem async_eq_spec (cfg : Config) (req : Request) (now : Nat) (cache : Cache) (script : List ScriptStep) :
+    (resolveAsync exactLoop cfg codeBackoff ConstsC16.clipSleep ConstsC16.maxChain req now cache script).2.1 =
+      (spec cfg codeBackoff ConstsC16.clipSleep ConstsC16.maxChain req now cache script).1 := by
+  rw [async_eq_sync]
+  exact codeResolve_eq_spec cfg req now cache script
+
+/-- non-vacuity: the coroutine really suspends — a SERVFAIL round, a back-off sleep, a truncated UDP reply, its TCP
+retry, an answer: two services per pass are needed and used -/
+example :
+    let cfg : Config := { servers := [⟨0, false⟩], search := [], domain := none, ndots := none,
+                          useSearchByDefault := false, timeout := 2000, lifetime := 5000, retryServfail := true,
+                          cacheOn := false }
+    let req : Request := { qname := [[97], []], rdtype := 1, rdclass := 1, tcp := false, raiseOnNoAnswer := true,
+                           search := none, lifetime := none }
+    let sf : Resp := { rcode := 2, qr := true, qcount := 1, answer := [], authority := [] }
+    let ok : Resp := { rcode := 0, qr := true, qcount := 1, answer := [⟨[[97], []], 1, 1, 60, []⟩], authority := [] }
+    let r := resolveAsync exactLoop cfg codeBackoff true 16 req 0 []
+      [⟨.resp sf, 5⟩, ⟨.exc .truncated, 3⟩, ⟨.resp ok, 7⟩]
+    r.1.countP isQuery = 3 ∧ r.2.2.now = 115 ∧
+    (match r.2.1 with | .answer a => decide (a.minTtl = 60 ∧ a.server = some 0) | _ => false) = true := by
+  decide
 
 /-! ## non-vacuity of the run-level theorems -/
 
